@@ -80,7 +80,7 @@ func TestVerif_C03(t *testing.T) {
 	res.assume("envelope: IPv4; every PDR names an existing FAR; uplink PDRs carry a TEID or CHOOSE; Update FARs carry Update Forwarding Parameters; port pairs representable by the Exact strategy; canonical flow descriptions (from <remote> to assigned); distinct precedences among PDRs of a session")
 	res.assume("packet classification is decided on boundary-value samples of the eight match fields around every installed rule and every live PDR")
 	res.assume("a killed incarnation is simulated in-process: the datapath server refuses every command of the old gRPC client from the kill point on (the agent process itself is abandoned)")
-	nh := vEnv.pick(240, 14000)
+	nh := vEnv.pick(600, 14000)
 	var a *vAgent
 	defer func() {
 		if a != nil {
@@ -138,7 +138,7 @@ func TestVerif_C03(t *testing.T) {
 // still populated server: the four lookup modules must be wiped, the slice meter kept, and a
 // fresh history must then yield exact images again.
 func c03Restart(t *testing.T, res *vResult) {
-	n := vEnv.pick(36, 2400)
+	n := vEnv.pick(72, 2400)
 	for ci := 0; ci < n; ci++ {
 		idx := 2000000 + ci
 		if !vEnv.mine(idx) {
